@@ -659,6 +659,7 @@ func Run(cfg hx.Config) error {
 	runWFN(r, cfg, rnd)
 	runDuration(r, cfg, rnd)
 	runEncodeAliasing(r, cfg, rnd)
+	runReceiverIndependence(r, cfg, rnd)
 	runJSON(r, cfg, rnd)
 	runScan(r, cfg, rnd)
 	// the zero Digest (recorded finding): it prints as "" which its own decoder rejects
